@@ -6,6 +6,7 @@ import (
 	"runtime"
 	"sort"
 	"sync"
+	"sync/atomic"
 
 	"github.com/named-data/ndnd/fw/table"
 	enc "github.com/named-data/ndnd/std/encoding"
@@ -66,6 +67,8 @@ func c16Quiescent(c *h.Ctx, id string, r *rand.Rand) {
 		}(w)
 	}
 	wantStrat := map[string]string{}
+	defaultStrat := table.FibStrategyTable.FindStrategyEnc(enc.Name{}).String()
+	var stratLost atomic.Value
 	wg.Add(1)
 	go func() {
 		defer wg.Done()
@@ -73,7 +76,7 @@ func c16Quiescent(c *h.Ctx, id string, r *rand.Rand) {
 		rr := rand.New(rand.NewSource(seeds[nW]))
 		for k := 0; k < nOps*2; k++ {
 			n := names[rr.Intn(len(names))]
-			if rr.Intn(5) == 0 {
+			if rr.Intn(5) < 2 {
 				s := strats[rr.Intn(2)]
 				sn, _ := enc.NameFromStr(s)
 				table.FibStrategyTable.SetStrategyEnc(n.Clone(), sn)
@@ -81,6 +84,20 @@ func c16Quiescent(c *h.Ctx, id string, r *rand.Rand) {
 			} else {
 				table.FibStrategyTable.UnSetStrategyEnc(n.Clone())
 				delete(wantStrat, n.String())
+			}
+			// this goroutine is the only one issuing strategy commands (route updates never touch
+			// strategies): right after its command returned, a lookup below the prefix must see the
+			// effect - whatever route recomputation is going on at the same time
+			want := defaultStrat
+			for l := len(n); l >= 1; l-- {
+				if v, ok := wantStrat[n[:l].String()]; ok {
+					want = v
+					break
+				}
+			}
+			if got := table.FibStrategyTable.FindStrategyEnc(append(n.Clone(), enc.NewStringComponent(8, "x"))); got.String() != want {
+				stratLost.Store(fmt.Sprintf("after strategy command %d on %s, a lookup below it returns %s, the commands issued so far give %s", k, n, got, want))
+				return
 			}
 			if rr.Intn(6) == 0 {
 				runtime.Gosched()
@@ -107,6 +124,10 @@ func c16Quiescent(c *h.Ctx, id string, r *rand.Rand) {
 		return false
 	})
 	if bad {
+		return
+	}
+	if v := stratLost.Load(); v != nil {
+		c.Violation("C16:strategy-command-effect-lost:"+algo, id, v.(string)+" (route updates and lookups were running concurrently)", det)
 		return
 	}
 	// ---- at quiescence
